@@ -282,6 +282,81 @@ func checkC14(r *core.Run) {
 	delField := keysOf(mapFieldOps(w, send, "Delete", 2, map[*core.FuncInfo]bool{}))
 	r.Sites++
 	r.Check(delField == storeField && storeField != "", "C14.table", key+" write failure deletes from the table it stored in", w.Pos(send.Decl.Pos()), "field "+storeField, "the store goes to '"+storeField+"' but the write-failure path deletes from '"+delField+"'")
+	// ---- who touches the table of pending futures directly: the send (store; delete after a failed write), the
+	// lookup and the remover that takes the id of ONE request. Nothing iterates over it or deletes entries it picks
+	// itself: the table is keyed by request id only (a future does not know its session), so "fail everything
+	// pending" on the loss of one connection aborts the requests in flight on the healthy ones, whose replies then
+	// find no future.
+	{
+		sendChain := map[*core.FuncInfo]bool{send: true}
+		for _, cs := range w.Calls(send) {
+			if h := w.Info(cs.Static); h != nil && core.RecvNamed(h.Obj) == gr {
+				sendChain[h] = true
+				for _, cs2 := range w.Calls(h) {
+					if h2 := w.Info(cs2.Static); h2 != nil && core.RecvNamed(h2.Obj) == gr {
+						sendChain[h2] = true
+					}
+				}
+			}
+		}
+		nTouch := 0
+		for _, f := range w.SortedFuncs() {
+			if w.IsTestFile(f.Decl.Pos()) || f.Decl.Body == nil || !strings.HasPrefix(f.Pkg.PkgPath, core.Module+"/pkg/remoting") {
+				continue
+			}
+			info := f.Pkg.TypesInfo
+			ps := paramObjs(f)
+			ast.Inspect(f.Decl.Body, func(n ast.Node) bool {
+				c, ok := n.(*ast.CallExpr)
+				if !ok {
+					return true
+				}
+				sel, ok := ast.Unparen(c.Fun).(*ast.SelectorExpr)
+				if !ok {
+					return true
+				}
+				fs, ok := ast.Unparen(sel.X).(*ast.SelectorExpr)
+				if !ok {
+					return true
+				}
+				fv, ok := info.Uses[fs.Sel].(*types.Var)
+				if !ok || !fv.IsField() || fv.Name() != storeField {
+					return true
+				}
+				if t := info.TypeOf(fs.X); t == nil || !strings.HasSuffix(t.String(), "GettyRemoting") {
+					return true
+				}
+				op := sel.Sel.Name
+				nTouch++
+				r.Sites++
+				r.Fn(f)
+				key := core.ShortKey(f.Obj) + " -> " + storeField + "." + op
+				switch op {
+				case "Load":
+					r.OK("C14.table", key, w.Pos(c.Pos()), "lookup")
+				case "Store":
+					r.Check(sendChain[f], "C14.table", key, w.Pos(c.Pos()), "stored by the send", "a pending future is stored outside the send path")
+				case "Delete", "LoadAndDelete", "CompareAndDelete":
+					own := false
+					if len(c.Args) >= 1 {
+						for _, p := range ps {
+							if isObj(info, c.Args[0], p) {
+								own = true // the id of one request, named by the caller
+							}
+						}
+					}
+					r.Check(sendChain[f] || own, "C14.table", key, w.Pos(c.Pos()), "the failed write of the send, or the remover of one named request",
+						"pending futures are deleted here by a key this function picks itself (not the send's failed write, not the id its caller names): requests in flight on other, healthy sessions lose their futures and their replies are dropped")
+				default:
+					r.Bad("C14.table", key, w.Pos(c.Pos()), "the table of pending futures is traversed / changed with "+op+": it is keyed by request id only, so whatever is done to 'all pending requests' hits the requests in flight on every session, not just on the one that triggered it")
+				}
+				return true
+			})
+		}
+		if nTouch < 3 {
+			r.Bad("C14.table", "INSTANCE-FLOOR uses of the pending-futures table", "", "fewer uses of the table than the store, the failed-write delete and the remover confirmed by hand")
+		}
+	}
 	// ---- the waiter
 	var waiter *core.FuncInfo
 	for _, f := range w.SortedFuncs() {
